@@ -8,9 +8,17 @@ import tables_callback
 DEEP_ARITIES = list(range(9))
 
 
-def with_arity(cases, ar):
-    """the same programs with the signals' arities set: `ar` = digit string, one digit per signal index, last repeats"""
-    return [[c[0] + ' a' + ar] + c[1:] if c and c[0].startswith('@') else c for c in cases]
+def with_arity(cases, ar, extra=''):
+    """the same programs with the signals' arities set: `ar` = digit string, one digit per signal index, last repeats;
+    `extra` = further configuration tokens (object kinds `k<digits>` / `j<digits>`)"""
+    return [[c[0] + ' a' + ar + (' ' + extra if extra else '')] + c[1:] if c and c[0].startswith('@') else c for c in cases]
+
+
+# object kinds (harness/callback.cpp): listener kind 1 = object of a class with Li as a NON-FIRST base connected through
+# Li's slot pointers (template parameters W != Y), 2 = the same object connected through slot pointers cast to the
+# derived class (member pointers with a non-zero this-adjustment); emitter kind 1 = object of a class with Em as a
+# non-first base handed over as pointer to the derived class (V != X).  One digit per listener / emitter, last repeats.
+KINDS = ['k1 j1', 'k2 j0', 'k01 j10', 'k12 j01', 'k21 j1', 'k10 j0']
 
 
 def act(rng, ne, nl, nsg, nslot, p_emit=0.2, p_destroy=0.12):
@@ -284,15 +292,28 @@ class C12(Check):
             # pair swaps them), so one emitter carries activations of two different emit templates at once
             out += chunks('nest-' + tag, with_arity(base('nest', nl), '%d%d' % (ar, (ar + 4) % 9)),
                           'signal 0 with %d, signal 1 with %d arguments: recursive re-emission to the depth limit + second signal of the same emitter + pending slot; actor words of length <= %d over a 12-action alphabet, 2 slot orders, 2 depth limits' % (ar, (ar + 4) % 9, nl))
+            # multiple inheritance: the same families of programs (at the quick sizes minus one) with listeners / emitters whose
+            # Li / Em part is a non-first base (W != Y, V != X, cast slot pointers), two kind assignments per program
+            mi = base('exh', 1) + base('dcd', 3) + base('nest', 1)
+            mic = []
+            for i, c in enumerate(mi):
+                for kk in (KINDS[(i + ar) % len(KINDS)], KINDS[(i + ar + 3) % len(KINDS)]):
+                    mic += with_arity([c], str(ar) if c[0].split()[2] == '1' else '%d%d' % (ar, (ar + 4) % 9), kk)
+            out += chunks('mi-' + tag, mic,
+                          'signals with %d arguments, listeners / emitters that are non-first bases of the connected object (template parameters W != Y, V != X; slot pointers cast to the derived class): exh length 1, dcd length <= 3, nest length 1, two kind assignments each' % ar)
         def rand_ar():
             pool = self.suspects * 3 + list(range(9))
             return ''.join(str(rng.choice(pool)) for _ in range(3))
+        def rand_kinds():
+            if rng.random() < 0.4:
+                return ''
+            return 'k' + ''.join(rng.choice('012') for _ in range(3)) + ' j' + ''.join(rng.choice('01') for _ in range(3))
         ec = self.edge_cases(rng)
         ec = ec[:10] + self.small_enough(ec[10:])
-        ec = [c for a in ['0'] + [rand_ar() for _ in range(3)] for c in with_arity(ec, a)]
+        ec = [c for a in ['0'] + [rand_ar() for _ in range(3)] for c in with_arity(ec, a, rand_kinds() if a != '0' else '')]
         out.append(Stream('edge', ec, note='destroyed objects, unknown signals, never-connected slots, duplicates; arities 0 and 3 random assignments'))
         rc = self.small_enough([self.random_case(rng) for _ in range(6000 if thorough else 1200)])
-        rc = [with_arity([c], rand_ar())[0] for c in rc]
+        rc = [with_arity([c], rand_ar(), rand_kinds())[0] for c in rc]
         out.append(Stream('random', rc, note='random scripts, every signal index with a random arity 0..8; programs with more than 200 slot invocations are dropped'))
         return out
 
